@@ -149,6 +149,7 @@ type Exec struct {
 	Uids    map[string]string // symbolic -> server upload id
 	Host    string            // Host header to use ("" = default)
 	Addr    func(r *Req)      // addressing-mode rewrite applied to every request (C16)
+	Api     bool              // call the Backend methods directly instead of the HTTP front end (api.go)
 	Sync    bool              // run the handler on the calling goroutine, let panics propagate
 	Timeout time.Duration
 }
@@ -310,12 +311,14 @@ func (x *Exec) Build(op Op) *Req {
 		if op.Has("inm") {
 			r.Header.Set("If-None-Match", quoteETag(x.Conc.Body(op.Atoms("inm"))))
 		}
+		setIMS(r, op)
 		return r
 	case "HeadObject":
 		r := newReq("HEAD", x.objPath(b, k))
 		if op.Has("inm") {
 			r.Header.Set("If-None-Match", quoteETag(x.Conc.Body(op.Atoms("inm"))))
 		}
+		setIMS(r, op)
 		return r
 	case "DeleteObject":
 		return newReq("DELETE", x.objPath(b, k))
@@ -489,6 +492,12 @@ func md5b64(b []byte) string {
 
 // Do executes one abstract operation over HTTP.
 func (x *Exec) Do(op Op) *Observed {
+	if x.Api {
+		if o := x.apiDo(op); o != nil {
+			return o
+		}
+		return &Observed{NoReq: true}
+	}
 	r := x.Build(op)
 	if r == nil {
 		return &Observed{NoReq: true}
@@ -685,4 +694,14 @@ func (x *Exec) buildUpload(op Op) *Req {
 		r.Body = &failingReader{data: wire[:k]}
 	}
 	return r
+}
+
+// setIMS: If-Modified-Since before ("past") or after ("future") every write of the run.
+func setIMS(r *Req, op Op) {
+	switch op.S("ims") {
+	case "past":
+		r.Header.Set("If-Modified-Since", "Thu, 01 Jan 1970 00:00:01 GMT")
+	case "future":
+		r.Header.Set("If-Modified-Since", "Fri, 01 Jan 2100 00:00:00 GMT")
+	}
 }
